@@ -37,7 +37,7 @@ var verifPairs = [][2]verifTpl{
 	{verifTplB0, verifTplS1},  // type change batch -> stream
 }
 
-var verifTaskIDs = []string{"t0", "t1", "t2"}
+var verifTaskIDs = []string{"t0", "t1", "t2", "t3"}
 
 func verifSameDBRPs(a, b []DBRP) bool {
 	if len(a) != len(b) {
